@@ -194,7 +194,7 @@ func (r RawSuite) Validate() error {
 
 func parseRawSuite(raw string) (SuiteConfig, error) {
 	parts := strings.Split(raw, ":")
-	if len(parts) < 3 {
+	if len(parts) != 3 {
 		return SuiteConfig{}, fmt.Errorf("invalid OCRA suite format: %q", raw)
 	}
 
